@@ -54,6 +54,9 @@ func c01Labels(c c01Case) (nontrivial bool, labels []string) {
 		case "create":
 			tables++
 			cols += len(s.Cols)
+			if len(s.Cols) >= 9 {
+				labels = append(labels, fmt.Sprintf("wide-table(%s columns)", map[bool]string{false: "9-33", true: "63-129"}[len(s.Cols) > 33]))
+			}
 		case "insert":
 			inserted[s.Table] += len(s.Rows)
 			if lastIns != "" && lastIns != s.Table {
